@@ -32,6 +32,7 @@ from .values import (
     State,
     SuperVal,
     View,
+    XReal,
     is_z3,
     sort_of_type,
 )
@@ -53,7 +54,7 @@ class CallMixin(ExprMixin):
     # ------------------------------------------------------------------ call expression
     def eval_call(self, e: ast.Call, st: State, ctx: Ctx):
         # spec builtins needing unevaluated arguments
-        if isinstance(e.func, ast.Name) and ctx.spec and e.func.id in ("old", "forall", "exists", "implies"):
+        if isinstance(e.func, ast.Name) and ctx.spec and e.func.id in ("old", "pre", "forall", "exists", "implies"):
             return [(st, self.spec_special(e, st, ctx))]
         if isinstance(e.func, ast.Name) and e.func.id == "super" and not e.args:
             self_v = self.lookup_name(self.first_param_name(ctx.func), st, ctx)
@@ -323,6 +324,8 @@ class CallMixin(ExprMixin):
             return smt.fresh(name, sort_of_type(t))
         if t == "none":
             return None
+        if t == "xreal":
+            return XReal(smt.fresh(name + "_isinf", smt.Bo), smt.fresh(name, smt.R))
         if t == "str":
             return OpaqueStr(name)
         if t.startswith("opt[") and t.endswith("]"):
@@ -369,6 +372,8 @@ class CallMixin(ExprMixin):
                 st.heap[obj.oid][mangle(cname, fn_)] = self.make_symbolic(st, ft, f"{name}_{fn_.lstrip('_')}")
             for fn_, ft in later:
                 st.heap[obj.oid][mangle(cname, fn_)] = self.make_symbolic_gen(st, ft, f"{name}_{fn_.lstrip('_')}", obj, cname)
+            if sh.invariant:
+                self.created_shapes.append((obj, sh))
             return obj
         raise EngineError(f"unknown type spec {t!r}")
 
@@ -510,6 +515,8 @@ class CallMixin(ExprMixin):
             raise EngineError(f"cannot havoc {label}: current value None has no declared sort (declare the field as opt[...])")
         if isinstance(cur, Opt):
             return Opt(smt.fresh(nm + "_isnone", smt.Bo), self.havoc_like(st, cur.val, name, label) if not isinstance(cur.val, Ref) else cur.val)
+        if isinstance(cur, XReal):
+            return XReal(smt.fresh(nm + "_isinf", smt.Bo), smt.fresh(nm, smt.R))
         if isinstance(cur, tuple):
             return tuple(self.havoc_like(st, x, f"{name}_{i}", label) for i, x in enumerate(cur))
         if isinstance(cur, (Ref, Closure, BoundMethod, OpaqueStr, str, ClassVal, PyClass)):
@@ -532,6 +539,23 @@ class CallMixin(ExprMixin):
             return View(b, smt.fresh("ret_lo", smt.I), smt.fresh("ret_hi", smt.I))
         return self.make_symbolic(st, t, "ret")
 
+    def apply_call_hints(self, st: State, ctx: Ctx, fi: FuncInfo, pre_state: State, res: Any, line: int) -> None:
+        """Proof hints of the *caller's* contract: clauses proved, then assumed, right after a call to `fi` returns.
+        In a hint, `old(...)` is the caller's entry state and `pre(...)` the state just before the call."""
+        if not ctx.top or ctx.contract is None:
+            return
+        hints = ctx.contract.env.get("call_hints", {}).get(fi.qualname) or ctx.contract.env.get("call_hints", {}).get(fi.name)
+        if not hints:
+            return
+        from .contracts import _clauses
+        hctx = ctx.sub(spec=True)
+        hctx.specials["result"] = res
+        hctx.specials["$pre"] = (pre_state, ctx.frame)
+        for cl in _clauses(hints):
+            g = self.eval_clause(cl, st, hctx)
+            self.oblige(st, g, "hint", line, f"after-{fi.name}:{cl.name}", cl.tags)
+            st.assume(g)
+
     def populate_exc(self, st: State, exc: Ref, cname: str, c: Contract) -> None:
         fields = c.exc_fields.get(cname)
         if fields is None and cname in self.R.shapes:
@@ -544,6 +568,15 @@ class CallMixin(ExprMixin):
         frame = self.new_frame(st, None, "contract:" + fi.qualname)
         self.bind_params(st, ctx, fi, frame, args, kwargs, None)
         sctx = self.spec_ctx(fi, frame, None, {})
+        # the receiver's class invariant is part of every method's precondition
+        if fi.cls is not None and args and isinstance(args[0], Ref) and "staticmethod" not in fi.decorators:
+            sh = self.R.shapes.get(c.self_shape or fi.cls.name)
+            if sh is not None and sh.invariant and fi.name != "__init__":
+                ictx = self.shape_ctx(st, args[0], sh)
+                for cl in sh.invariant:
+                    g = self.eval_clause(cl, st, ictx)
+                    self.oblige(st, g, "call-inv", line, f"{fi.qualname}:{cl.name}", cl.tags)
+                    st.assume(g)
         # requires
         for cl in c.requires:
             self.oblige(st, self.eval_clause(cl, st, sctx), "call-pre", line, f"{fi.qualname}:{cl.name}", cl.tags)
@@ -576,6 +609,7 @@ class CallMixin(ExprMixin):
             for cl in c.ensures:
                 st.assume(self.eval_clause(cl, st, nctx))
             if self.feasible(st):
+                self.apply_call_hints(st, ctx, fi, old, res, line)
                 results.append((st, res))
         if not results and live_before and self.recording:
             raise EngineError(f"{ctx.func.key()}:{line}: applying the contract of {c.key} leaves no feasible outcome "
